@@ -691,10 +691,10 @@ fn main() {
         i += 1;
     }
     let mut tier = match (prop.as_str(), tier_name.as_str()) {
-        ("C04", "thorough") => Tier { cases: 240_000, exhaustive_len: 600, samples_per_dim: 48 },
-        ("C04", _) => Tier { cases: 12_000, exhaustive_len: 300, samples_per_dim: 24 },
-        ("C07", "thorough") => Tier { cases: 600_000, exhaustive_len: 0, samples_per_dim: 8 },
-        (_, _) => Tier { cases: 40_000, exhaustive_len: 0, samples_per_dim: 8 },
+        ("C04", "thorough") => Tier { cases: 2_000_000, exhaustive_len: 600, samples_per_dim: 48 },
+        ("C04", _) => Tier { cases: 40_000, exhaustive_len: 300, samples_per_dim: 24 },
+        ("C07", "thorough") => Tier { cases: 6_000_000, exhaustive_len: 0, samples_per_dim: 8 },
+        (_, _) => Tier { cases: 150_000, exhaustive_len: 0, samples_per_dim: 8 },
     };
     if let Some(c) = cases_override {
         tier.cases = c;
@@ -714,7 +714,9 @@ fn main() {
                 let case_seed = mix(seed, mix(hash_bytes(prop.as_bytes()), c));
                 let mut r = Rng::new(case_seed);
                 let cfg = case_cfg(&mut r, &prop);
-                let (spec, opt) = gen::packet(&mut r, &cfg);
+                // a share of the cases is built to straddle the 14-bit pointer limit
+                let boundary = r.below(100) < if prop == "C07" { 15 } else { 2 };
+                let (spec, opt) = if boundary { gen::boundary_packet(&mut r) } else { gen::packet(&mut r, &cfg) };
                 let out = run_case(&prop, &spec, opt.as_ref(), &mut r, &tier, &mut st);
                 for (fd, mode, w) in out.findings {
                     if fd.prop != prop {
